@@ -100,6 +100,9 @@ def jsonable(x, depth=0):
         return {"__ma__": jsonable(np.asarray(x.data), depth + 1),
                 "mask": np.ma.getmaskarray(x).astype(int).tolist(), "dtype": str(x.dtype)}
     if isinstance(x, np.ndarray):
+        if x.size > 4000:
+            return {"__truncated_array__": list(x.shape), "dtype": str(x.dtype), "head": jsonable(x.reshape(-1)[:50], depth + 1),
+                    "tail": jsonable(x.reshape(-1)[-50:], depth + 1)}
         if x.dtype.kind == "M":
             return {"__dt64__": [str(v) for v in x.tolist()] if x.dtype != "datetime64[ns]" else [str(v) for v in x],
                     "dtype": str(x.dtype)}
@@ -115,6 +118,10 @@ def jsonable(x, depth=0):
     if isinstance(x, dict):
         return {str(k): jsonable(v, depth + 1) for k, v in x.items()}
     if isinstance(x, (list, tuple, set, frozenset)):
+        if len(x) > 4000:
+            x = list(x)
+            return {"__truncated__": len(x), "head": [jsonable(v, depth + 1) for v in x[:50]],
+                    "tail": [jsonable(v, depth + 1) for v in x[-50:]]}
         return [jsonable(v, depth + 1) for v in x]
     try:
         import pandas as pd
